@@ -71,6 +71,12 @@ func (interp *Interpreter) SingleStepStateTransition(pc ProgramCounter) (ExitRea
 	return exitReason, newPC
 }
 
+// isControlTransfer reports whether op is a jump or branch, i.e. a block terminator whose
+// handler returns the address of the next instruction to execute.
+func isControlTransfer(op byte) bool {
+	return op > 1 && IsBlockTerminator(op)
+}
+
 func (interp *Interpreter) SingleStepInvokeDecodedBlocks(pc ProgramCounter) (ExitReason, ProgramCounter) {
 	prog := interp.Program
 	instrSlice := prog.Instrs
@@ -131,7 +137,9 @@ func (interp *Interpreter) SingleStepInvokeDecodedBlocks(pc ProgramCounter) (Exi
 				return exitReason, instr.PC + ProgramCounter(instr.SkipLen) + 1
 			}
 
-			if instr.PC != newPC {
+			// A jump or branch names the next instruction itself, which may be its own
+			// address (a loop on one instruction), so the addresses are not compared.
+			if isControlTransfer(instr.Opcode) {
 				pc = newPC
 				branchTaken = true
 				break
